@@ -1,0 +1,15 @@
+//go:build verif
+
+package kgo
+
+// VerifTrace, when set (only in `verif` builds), receives one event per
+// instrumented linearization point. ev names the point, r is the record it
+// concerns (or nil), a..c are cheap scalars read while the protecting lock is
+// still held. The external model-based verification harness sets this.
+var VerifTrace func(ev string, r *Record, a, b, c int64)
+
+func vtrace(ev string, r *Record, a, b, c int64) {
+	if f := VerifTrace; f != nil {
+		f(ev, r, a, b, c)
+	}
+}
